@@ -157,11 +157,10 @@ def targets(tier):
     ts.append(mk("dst_tinyA_mps4", "dist", TINY_A, 4, False))
     if tier != "quick":
         ts.append(mk("dst_tinyD_mps4", "dist", TINY_D, 4, False))
-        ts.append(mk("dst_tinyB_mps8", "dist", TINY_B, 8, False))
         ts.append(mk("dst_tinyC_mps4", "dist", TINY_C, 4, False))
     ts.append(mk("blk_repo_mps64", "block", repo_test_collection(), 64, True))
     ts.append(mk("dst_repo_mps64", "dist", repo_test_collection(), 64, True))
-    nrand = 0 if tier == "quick" else 8
+    nrand = 0 if tier == "quick" else 5
     for k in range(nrand):
         mps = [16, 8, 32, 64][k % 4]
         tri = random_triples(r, mps)
@@ -253,7 +252,7 @@ def traces(target, rng, tier):
     if key in _cache:
         return _cache[key]
     p = target.params
-    n = (10 if tier == "quick" else 40)
+    n = (10 if tier == "quick" else 30)
     out = []
     for k in range(n):
         adversarial = (k % 5 == 4)
@@ -274,7 +273,7 @@ def alphabet_for(triples, mps, tier):
     """Explicit input alphabet of the lock-step ties.  Requests (value, wLength, start_position): every present descriptor
     read whole at every packet-aligned offset up to and including its end (the ZLP offset), and with wLength one above the
     packet size; an absent index, an absent type inside the table, a type beyond the table; in the thorough tier also
-    short/exact wLength, misaligned and out-of-range offsets and wLength = 0.  Every request with start and ready both ways."""
+    wLength 1 and wLength = len, a misaligned offset and an offset equal to wLength.  Every request with start and ready both ways."""
     pres = _present(triples)
     maxt = max(t for t, _ in pres)
     reqs = []
@@ -284,9 +283,7 @@ def alphabet_for(triples, mps, tier):
             reqs.append((v, 0xFFFF, sp))
         reqs.append((v, mps + 1, 0)); reqs.append((v, mps + 1, mps))
         if tier != "quick":
-            for w in sorted({1, mps - 1, mps, L - 1, L, L + 1}):
-                if w >= 1: reqs.append((v, w, 0))
-            reqs += [(v, 0xFFFF, 1), (v, 0xFFFF, 0x7FF), (v, mps, mps), (v, 0, 0), (v, 2 * mps, mps)]
+            reqs += [(v, 1, 0), (v, L, 0), (v, 0xFFFF, 1), (v, mps, mps)]     # short / exact wLength, misaligned offset, offset = wLength
     t0, i0 = sorted(pres)[0]
     absent = [(t0 << 8) | ((i0 + 1) & 0xFF), ((maxt + 1) & 0xFF) << 8]
     gap = [t for t in range(maxt + 1) if t not in {t for t, _ in pres}]
@@ -386,7 +383,12 @@ def rom_layout_check(tier, rng, bdir, cov):
     n = 32 if tier == "quick" else 120
     colls = [TINY_A, TINY_B, TINY_C, repo_test_collection()]
     while len(colls) < n:
-        colls.append(random_triples(rng, maxlen=rng.choice([40, 140, 300])))
+        tri = random_triples(rng, maxlen=rng.choice([40, 140, 300]))
+        if rng.random() < 0.25:                       # the ROM handler also takes empty descriptors
+            k = rng.randrange(len(tri))
+            if (tri[k][0], tri[k][1]) != (3, 0):
+                tri[k] = (tri[k][0], tri[k][1], [])
+        colls.append(tri)
     rows = []
     for tri in colls:
         h = GetDescriptorHandlerBlock(collection_of(tri), max_packet_length=64)
